@@ -7,6 +7,15 @@ def run(tier, seed, which="C12"):
     V = kv.Verdict("C12", tier, seed)
     wd = kv.workdir("c12")
     rng = random.Random(seed)
+    for cfg, twin in ((("MC_GuideTree_q.cfg", False), ("MC_GuideTree_twin_q.cfg", True)) if tier == "quick" else (("MC_GuideTree.cfg", False), ("MC_GuideTree_twin_q.cfg", True))):
+        r = kv.run_tlc("MC_GuideTree", cfg, wd, workers=8, timeout=3000, heap="6g", name=cfg)
+        if twin:
+            if r.ok:
+                raise kv.Broken("MC_GuideTree twin (epsilon larger than the separation) was not rejected")
+        else:
+            V.add_tlc(r)
+            if not r.ok:
+                raise kv.Broken("MC_GuideTree: copies do not form a clade: %s" % r.out[-600:])
     groups = []
     n_cases = 60 if tier == "quick" else 1500
     for i in range(n_cases):
@@ -109,7 +118,7 @@ def run(tier, seed, which="C12"):
         groups.append(dict(gid="bnd%d_%d" % (want, j), rel="duprows", prop="C12", members=[dict(names=names, seqs=seqs, type=rng.choice([3, 4, 5]), threads=rng.choice([1, 4]), dump_in=True)],
                            key=json.dumps(seqs), nontrivial=True))
     V.sample(dict(group="dup0", seqs=groups[0]["members"][0]["seqs"][:6]))
-    rel.run_groups(V, groups, wd, per_batch=6, timeout=600)
+    rel.run_groups(V, groups, wd, per_batch=6, timeout=600, guidetree=True)
     return V.finish(rule="inputs of 2..99 sequences with planted duplicates (multiplicity 2..10, several duplicated sequences, any positions), all types, threads 1 and 4; "
                     "premise (no other sequence contains or is contained in a duplicated one, on the guide-tree alphabet) evaluated by Relate!DupPremise on the object as read, "
                     "cases failing it are skipped (some are planted); relation: equal ungapped rows have equal gapped rows",
